@@ -67,6 +67,11 @@ def matrix(thorough):
         {"reactants": ["H", "H"], "products": ["H2"], "a": "1.0E-17", "b": "0.00", "c": "0.0", "tmin": "10", "tmax": "41000", "idx": 4, "code": 1}]) + "\n"
     for sname, sh in (("none", {}), ("tables", {"H2": "L96Table", "CO": "V09Table", "N2": "L13Table"}), ("vb88", {"CO": "VB88Table"})):
         cases.append((f"shielding-{sname}", {"files": [{"name": "s.leeds", "content": leeds_h2co}], "network": {"filelist": "s.leeds", "fileformats": "leeds", "shielding": sh}}, ["dense", "odeint"] if sname != "none" else ["dense"]))
+    late = "\n".join(["@format:idx,R,R,P,P,Tmin,Tmax,rate", "1,H,H,H2,,NONE,NONE,1d-17*T32", "@common:user_crflux,user_Av", "@var:crfac = user_crflux/1.3e-17", "2,H2,,H,H,NONE,NONE,crfac*1d-17*user_Av",
+                      "@common:user_gfuv", "3,H,H2,H,H2,10,1d4,user_gfuv*2.5d-10*T32**0.5"]) + "\n"
+    cases.append(("krome-late-directives", {"files": [{"name": "late.krome", "content": late}], "network": {"filelist": "late.krome", "fileformats": "krome"}}, backs))
+    two = "\n".join(["@format:idx,R,R,P,P,Tmin,Tmax,rate", "@common:user_second", "7,H2,,H,H,NONE,NONE,user_second*1d-17"]) + "\n"
+    cases.append(("krome-two-files", {"files": [{"name": "late.krome", "content": late}, {"name": "two.krome", "content": two}], "network": {"filelist": ["late.krome", "two.krome"], "fileformats": ["krome", "krome"]}}, ["dense"]))
     cases.append(("empty", {"reactions_empty_list": True, "network": {}}, backs))
     return cases
 
